@@ -1,2 +1,3 @@
 pub mod builtins;
 pub mod corpus;
+pub mod tree;
